@@ -358,7 +358,7 @@ pub enum NextEnd<O> {
     /// `next` found the ready queue empty and parked; the future was dropped (what `Buffer`'s
     /// `select!` does as soon as new input arrives)
     Idle,
-    /// no progress for 5 s of real time
+    /// no progress for 12 s of real time
     Hang { trace: Vec<&'static str> },
 }
 
@@ -407,7 +407,7 @@ pub async fn drive_next<T, P: Processor<T>>(p: &P, ctl: &Rc<Ctl>) -> NextEnd<Res
                 }
             }
         });
-        match tokio::time::timeout(Duration::from_secs(5), polled).await {
+        match tokio::time::timeout(Duration::from_secs(12), polled).await {
             Ok(o) => o,
             Err(_) => NextEnd::Hang {
                 trace: ctl.trace.borrow().clone(),
